@@ -11,5 +11,10 @@ def run(ctx):
     json_framing(ctx)
     print_structure(ctx)
     arithmetic(ctx, which=None if not ctx.quick else ['add', 'times', 'divide', 'round'], ill_typed=False)
+    # the fixpoint: numbers beyond the integer ranges are written as plain digit strings and read back through the tokenizer's overflow path
+    from ..scen_parser import tokenizer
+    DIG = [ord(c) for c in '0123456789']; NZ = [ord(c) for c in '123456789']; TERM = [0x20, 0x0a]
+    tokenizer(ctx, None, ['tok.value', 'tok.consumed'], 'plain digit strings of 20..22 digits (how jawk prints doubles beyond 2^64), every digit free', variants=('nocb',), partition=0,
+              multi=[(L + 1, [NZ] + [DIG] * (L - 1) + [TERM]) for L in (20, 21, 22)] + [(L + 2, [[ord('-')], NZ] + [DIG] * (L - 1) + [TERM]) for L in (19, 20)])
     from ..conform import conformance
     conformance(ctx, ['roundtrip'])      # strict-JSON read-back and byte-for-byte fixpoint on seeded values (validates the references; never decides)
